@@ -12,7 +12,7 @@ MANIFEST = {
     "technique": "Rocq proof over the Factory/Resolve model + vm_compute correspondence on generated wiring scenarios",
 }
 
-PROFILES = [(Profile(p_wrap=0.25), 350, 4000), (Profile(p_wrap=0.0, max_types=8, fields=(1, 5), p_cycle_bias=0.8), 250, 3000)]
+PROFILES = [(Profile(p_wrap=0.25), 270, 3200), (Profile(p_wrap=0.3, n_procs=(1, 2), p_lazy=0.3, p_init=0.8, p_initget=0.4, p_short=0.3), 80, 800), (Profile(p_wrap=0.0, max_types=8, fields=(1, 5), p_cycle_bias=0.8), 250, 3000)]
 
 RULE = 'generated component graphs (by-type, interface, slice, by-name, qualified, func edges; cycles; lazy; optional; wrapping processors); non-trivial = successful start in which some component is held through >= 2 points; distinct = distinct scenario shapes'
 
